@@ -234,8 +234,30 @@ def part_rejects(rec):
                           {"kind": "reject", "s": s})
 
 
+_vf = [0]
+
+
 def version_file_values(rec, content):
     import ncs.build as nb
+    import random
+    _vf[0] += 1
+    if random.Random(f"refused-first/{rec.seed}/{rec.shard}/{_vf[0]}").random() < 0.12:
+        # history: the read just before this one was REFUSED half-way (a VERSION file of a work-in-progress tree with every
+        # optional key and a field that is not a number); nothing of it may show in the next result
+        q = drive.fresh(rec.tmpdir(), ".VERSION")
+        with open(q, "w", newline="") as fh:
+            fh.write("VERSION_MAJOR = 7\nVERSION_MINOR = 7\nPATCHLEVEL = 3-dev\nVERSION_TWEAK = 100\nEXTRAVERSION = rc.1\n"
+                     "APP_ROOT_SEQ_NUM = 777\nAPP_ROOT_VERSION = 7.7.7-rc.7\nSCFW_VERSION_MAJOR = 7\nSCFW_VERSION_MINOR = 7\n"
+                     "SCFW_PATCHLEVEL = 7\nSCFW_VERSION_TWEAK = 77\nSCFW_EXTRAVERSION = beta\n")
+        try:
+            nb.read_version_file(q)
+            rec.count("version-file-history:earlier-file-unexpectedly-accepted")
+        except BaseException as e:  # noqa
+            if isinstance(e, KeyboardInterrupt):
+                raise
+            rec.count("version-file-history:read-after-a-refused-file")
+        finally:
+            os.unlink(q)
     p = drive.fresh(rec.tmpdir(), ".VERSION")
     with open(p, "w", newline="") as fh:
         fh.write(content)
